@@ -513,6 +513,9 @@ def Lips3d(coords, mask):
             value[:3] = Lips2d(coords, mask)
         elif mask.ndim == 1:
             value[:2] = Lips1d(coords, mask)
+        elif mask.ndim == 0:
+            # a single voxel: the complex is one vertex (or empty)
+            value[0] = check_cast_bin8(mask)
         return value
 
     cdef:
